@@ -15,9 +15,9 @@ def gen_total(work, mode, out, n=0, depth=64):
         raise ToolError("Gen_Total %s failed:\n%s" % (mode, r.tail()))
 
 
-def run_and_judge(label, cases, engine, work, ev, drv, env=None, nsamples=1):
+def run_and_judge(label, cases, engine, work, ev, drv, env=None, nsamples=1, per_case_timeout=30, timeout=600):
     obs = cases + ".obs"
-    run_driver(drv, ["run", engine], cases, obs, env=env, per_case_timeout=30)
+    run_driver(drv, ["run", engine], cases, obs, env=env, per_case_timeout=per_case_timeout, timeout=timeout)
     stats, rej = judge("tv/TV_Total.tla", None, obs, work)
     ev.add_judged(label, stats, rej, obs, nsamples=nsamples)
     os.remove(obs)
@@ -65,6 +65,18 @@ def run(prop, tier, seed, work, ev):
                          "@[0] == @[1]", "map(&abs(@), @)", "sum(@) > avg(@)", "[sum(@), avg(@)]", "to_number(to_string(@[0]))", "length(@)", "join(',', map(&to_string(@), @))"):
                 f.write(json.dumps({"e": "total", "text": common.cps(text), "doctext": common.cps(doc)}) + "\n")
     rejects += run_and_judge("numeric magnitude at the edge of the double / 64-bit integer range", c, "search", work, ev, drv)
+    # results with shared sub-values: n chained doublings have 2^n paths and n containers; nothing may walk every path
+    c = work.path("sharing.cases")
+    with open(c, "w") as f:
+        for n in (8, 24, 40, 64):
+            for text in (" | ".join(["[@, @]"] * n), " | ".join(["{a: @, b: @}"] * n), " | ".join(["{a: @, b: @}"] * (n // 2) + ["[@, @]"] * (n // 2)),
+                         " | ".join(["[@, @]"] * n) + " | length(@)", " | ".join(["[@, [@]]"] * n), "a" + " | [@, @]" * n + " | [0]",
+                         " | ".join(["[@, @][*]"] * n), " | ".join(["not_null([@, @])"] * n), " | ".join(["[@, @] | @[::-1]"] * (n // 2)),
+                         " | ".join(["merge({a: @}, {b: @})"] * n), " | ".join(["[@, @]"] * n) + " | [0]" * (n - 1)):
+                f.write(json.dumps({"e": "total", "text": common.cps(text), "doc": common.to_tagged({"k": [True], "a": 1}), "share": True}) + "\n")
+    # (every case that hangs costs its time limit: a short one, and room for all of them to hang)
+    rejects += run_and_judge("results with shared sub-values (8..64 chained doublings): search returns without walking every path", c, "search", work, ev, drv,
+                             per_case_timeout=12, timeout=1500)
     # case files of the other engines, in totality mode
     c = work.path("chars.cases")
     eng_lang.gen(work, "chars", c, t["charsN"], alpha="full")
@@ -82,7 +94,7 @@ def run(prop, tier, seed, work, ev):
     c = work.path("reval.cases")
     eng_eval.gen(work, "spell", c, inp=params)
     rejects += run_and_judge("evaluation engine: random sentences x random documents", c, "search", work, ev, drv)
-    for fam in ("compose", "nest", "hash", "alias"):
+    for fam in ["compose", "nest", "hash", "alias"] + eng_eval.R6:
         c = work.path("pool.%s.cases" % fam)
         with open(c, "w") as f:
             for line in open(eng_eval.POOLS):
